@@ -32,7 +32,10 @@ class BayesianEstimator(ParameterEstimator):
                 )
 
             if isinstance(model, DAG):
+                nodes = list(model.nodes())
                 model = BayesianNetwork(model.edges())
+                # Keep the nodes that have no edges.
+                model.add_nodes_from(nodes)
 
         super(BayesianEstimator, self).__init__(model, data, **kwargs)
 
